@@ -465,3 +465,75 @@ def r_reduce(P, chk):
                               r, ", ".join("yymsp[%d]" % i for i in missing), nrhs))
     chk.floor(rid, n, 40, "grammar rules with two or more right-hand-side symbols")
     chk.analysed[rid] = {"rules_checked": n, "rules": len(T.rules)}
+
+
+def r_opml_stack(P, chk):
+    """R-OPMLSTACK: the OPML import grammar's parser stack cannot overflow on any outline the exporter can write.
+
+    The exporter nests <outline> elements one level per heading level (H1..Hn, n = number of BLOCK_H<d> kinds) plus the flat
+    Metadata/Preamble items, so re-import pushes at most n open outlines.  The tables of opml-parser.c are explored over all 15
+    terminals with the number of open outlines bounded by n: every reachable stack must stay below the compiled stack size
+    (lemon's %stack_overflow discards the parse - the import yields an empty document)."""
+    rid = "R-OPMLSTACK"
+    chk.rule(rid, "OPML import parser: for every token sequence with at most <heading levels> open outlines the LALR stack "
+                  "stays below YYSTACKDEPTH (explored from the compiled tables)")
+    T = Tables(P, "opml-parser.c", "opml-parser.h")
+    levels = sorted(int(m.group(1)) for m in (re.match(r"BLOCK_H(\d)$", n) for n in P.enum_consts) if m)
+    if not levels or levels != list(range(1, len(levels) + 1)):
+        raise AnalysisBroken("BLOCK_H<d> heading kinds not found / not contiguous: %s" % levels)
+    D = len(levels)
+    inv = {v: k for k, v in T.tname.items()}
+    opens = [inv.get(n) for n in ("OPML_OUTLINE_OPEN", "OPML_OUTLINE_METADATA", "OPML_OUTLINE_PREAMBLE")]
+    close = inv.get("OPML_OUTLINE_CLOSE")
+    if None in opens or close is None:
+        raise AnalysisBroken("opml-parser.h: outline open/close terminals not found")
+    start = ((0,), 0)
+    seen = {start: None}
+    order = [start]
+    trans = 0
+    maxdepth = 1
+    over = []
+    i = 0
+    while i < len(order):
+        s, nest = order[i]
+        i += 1
+        for t in range(1, T.nterminal):
+            n2 = nest
+            if t in opens:
+                if nest >= D:
+                    continue
+                n2 = nest + 1
+            elif t == close:
+                if nest == 0:
+                    continue
+                n2 = nest - 1
+            res, ns, steps = T.feed(s, t)
+            trans += 1
+            if res == "shift":
+                maxdepth = max(maxdepth, len(ns))
+                if (ns, n2) not in seen:
+                    seen[(ns, n2)] = ((s, nest), t)
+                    order.append((ns, n2))
+                    if len(order) > 500000:
+                        raise AnalysisBroken("OPML configuration space does not close")
+            elif res == "overflow" or res.startswith("badgoto") or res == "loop":
+                over.append((res, (s, nest), t))
+    chk.analysed[rid] = {"unit": "opml-parser.c", "states": T.d["YYNSTATE"], "rules": T.d["YYNRULE"], "terminals": T.nterminal - 1,
+                         "max_open_outlines": D, "stack_limit": T.stackdepth, "configurations": len(order),
+                         "transitions": trans, "max_stack_depth": maxdepth}
+    chk.floor(rid, len(order), 40, "reachable OPML parser configurations")
+    chk.floor(rid, T.nterminal - 1, 15, "OPML terminals")
+    chk.obl[rid][0] += trans
+    chk.obl[rid][1] += trans - len(over)
+    chk.obligation(rid, "opml-parser.c: deepest stack over all token sequences with <= %d open outlines is %d entries, "
+                   "compiled limit %d" % (D, maxdepth, T.stackdepth), not over)
+    reported = set()
+    for res, st, t in over:
+        k = "opmlstack:%s:state%d" % (res.split(":")[0], st[0][-1])
+        if k in reported:
+            continue
+        reported.add(k)
+        seq = [T.name(x) for x in trace(seen, st)] + [T.name(t)]
+        chk.violation(rid, k, "opml-parser.c", "token sequence %s (at most %d open outlines, as the exporter writes for H1..H%d) "
+                      "drives the OPML parser into '%s' at stack depth %d (limit %d): the import is discarded" % (
+                          " ".join(seq), D, D, res, len(st[0]), T.stackdepth), {"sequence": seq})
